@@ -572,14 +572,15 @@ theorem cur_recordCS {s s' : St} (h : Cur s) (cf : Cfg) (n : Nat) (x : Inst) (du
       · cases hs
       · simp only [Option.some.injEq] at hs; subst hs; exact h1
 
-theorem cur_envCancel {s : St} (h : Cur s) (c : Nat) : Cur { s with croots := c :: s.croots } := by
-  have hm : CancMono s { s with croots := c :: s.croots } := by
+theorem cur_envCancel {s : St} (h : Cur s) (c : Nat) (p : List Nat) :
+    Cur { s with pcancel := p, croots := c :: s.croots } := by
+  have hm : CancMono s { s with pcancel := p, croots := c :: s.croots } := by
     refine ⟨fun n x hx => ⟨x, hx, rfl, id⟩, ?_⟩
     intro d hd
     simp only [List.contains_cons, Bool.or_eq_true]
     exact Or.inr hd
-  have hci : curInst { s with croots := c :: s.croots } = curInst s ∧
-      curCancel { s with croots := c :: s.croots } = curCancel s := ⟨rfl, rfl⟩
+  have hci : curInst { s with pcancel := p, croots := c :: s.croots } = curInst s ∧
+      curCancel { s with pcancel := p, croots := c :: s.croots } = curCancel s := ⟨rfl, rfl⟩
   refine ⟨h.1.keep hm rfl (Or.inl hci.1) ?_, h.2.keep hm rfl hci.1 rfl⟩
   intro m hm'
   rcases h.1.k1 m hm' with e | e
@@ -656,7 +657,12 @@ theorem step_cur (s s' : St) (e : Ev) (h : Cur s) (ha : AllRec s) (hs : step s e
   | envCancel c =>
     simp only [step, stepI] at hs
     split at hs
-    · simp at hs; subst hs; exact cur_envCancel h c
+    · simp at hs; subst hs; exact h.frame rfl rfl rfl rfl rfl
+    · cases hs
+  | envDo c =>
+    simp only [step, stepI] at hs
+    split at hs
+    · simp at hs; subst hs; exact cur_envCancel h c _
     · cases hs
   | envCancelW a =>
     simp only [step, stepI] at hs
